@@ -310,7 +310,7 @@ def run(ctx):
                        "the steps. A case is non-trivial if at least one injected fault fired; distinct = distinct "
                        "(operation, plan) lists")
     rnd = random.Random(ctx.seed)
-    n, maxlen = (350, 8) if ctx.tier == "quick" else (12000, 14)
+    n, maxlen = (350, 8) if ctx.tier == "quick" else (9000, 14)
     if ctx.replay:
         cases = [json.load(open(ctx.replay))["replay"]["case"]]
     else:
